@@ -83,6 +83,8 @@ def r1_fold(L, repo):
             except Raised as ex:
                 r2 = ("raises", ex.cls)
             got = r2[1] if isinstance(r2, tuple) and r2[0] == "ret" else r2
+            if isinstance(got, tuple) and len(got) == 2 and isinstance(got[0], Instance):
+                got = (got[0].ci.name, got[1])
             L.ob("C15.R1", F, "DATADump.parse_hdr", "header written for a %s of %d octets is read back as (that class, that length)" % (cls, ln),
                  (cls, ln), got, isinstance(got, tuple) and len(got) == 2 and got[0] == cls and got[1] == ln, ph.lineno)
     # another class is refused by the writer
